@@ -133,6 +133,12 @@ func runG(c GCase, rec *h.Rec) {
 	for pos := 0; pos < len(stream); pos++ {
 		orig := stream[pos]
 		vals := []byte{orig ^ 1, orig ^ 0x80, c.SubVal}
+		if len(stream) <= 1200 || startsDeflate(ms, pos) {
+			// every single-bit flip (short streams; the first bytes of each deflate stream, where the block header lives)
+			for b := uint(1); b < 7; b++ {
+				vals = append(vals, orig^(1<<b))
+			}
+		}
 		if f, mi := fieldAt(ms, pos); f == "bsize" {
 			// values that make the member look empty or one byte off
 			vals = append(vals, 17, 18, orig+1, orig-1)
@@ -194,6 +200,19 @@ func classify(ms []bz.Member, cut int) string {
 		return fmt.Sprintf("at the start of block %d", i)
 	}
 	return fmt.Sprintf("inside block %d (%s)", i, f)
+}
+
+// startsDeflate reports whether pos is one of the first four bytes of a member's deflate data.
+func startsDeflate(ms []bz.Member, pos int) bool {
+	if f, _ := fieldAt(ms, pos); f != "deflate" {
+		return false
+	}
+	for d := 1; d <= 4; d++ {
+		if f, _ := fieldAt(ms, pos-d); f != "deflate" {
+			return true
+		}
+	}
+	return false
 }
 
 // fieldAt names the field of the member holding stream offset pos.
